@@ -147,7 +147,7 @@ func c19ccReportValues(fn *ast.FuncDecl, recv string) (string, error) {
 	}
 	// for k, v := range ins { if _, ok := ch.DataPredecessors[k]; !ok { continue } ; ch.DataPredecessors[k] = true ; ch.Values[k] = v }
 	rs2, ok := l[1].(*ast.RangeStmt)
-	if !ok || c19ccSq(rs2.X) != ins || len(rs2.Body.List) != 3 {
+	if !ok || c19ccSq(rs2.X) != ins || len(rs2.Body.List) < 1 {
 		return "", c19ccErr(m, "statement 2 is not the storing loop")
 	}
 	kv, vv2 := c19ccRangeVars(rs2)
@@ -155,7 +155,7 @@ func c19ccReportValues(fn *ast.FuncDecl, recv string) (string, error) {
 		return "", c19ccErr(m, "loop variables of the storing loop")
 	}
 	t0, ok := rs2.Body.List[0].(*ast.IfStmt)
-	if !ok || t0.Else != nil || len(t0.Body.List) != 1 {
+	if !ok {
 		return "", c19ccErr(m, "storing loop: test")
 	}
 	ia, ok := t0.Init.(*ast.AssignStmt)
@@ -163,21 +163,43 @@ func c19ccReportValues(fn *ast.FuncDecl, recv string) (string, error) {
 		return "", c19ccErr(m, "storing loop: the test is not a lookup of the writer among the data predecessors")
 	}
 	okv, _ := ia.Lhs[1].(*ast.Ident)
-	br, ok := t0.Body.List[0].(*ast.BranchStmt)
-	if okv == nil || !ok || br.Tok != token.CONTINUE {
-		return "", c19ccErr(m, "storing loop: test without continue")
-	}
-	var skipCond string
-	switch c19ccSq(t0.Cond) {
-	case "!" + okv.Name:
-		skipCond = "(negb (g_set_mem v_" + kv + " v_dps))"
-	case okv.Name:
-		skipCond = "(g_set_mem v_" + kv + " v_dps)"
-	default:
+	if okv == nil {
 		return "", c19ccErr(m, "storing loop: test")
 	}
-	a1, ok1 := rs2.Body.List[1].(*ast.AssignStmt)
-	a2, ok2 := rs2.Body.List[2].(*ast.AssignStmt)
+	// two spellings of the same loop body are read (round 5, behaviour-preserving rewrites):
+	//   if _, ok := DP[k]; <c> { continue } ; <store>          -> skipped when <c>
+	//   if _, ok := DP[k]; <c> { <store> }   (nothing after)   -> skipped when not <c>
+	var store []ast.Stmt
+	negate := false
+	if br, isBr := c19ccOnlyBranch(t0.Body); isBr && br == token.CONTINUE && t0.Else == nil {
+		store = rs2.Body.List[1:]
+	} else if t0.Else == nil && len(rs2.Body.List) == 1 {
+		store = t0.Body.List
+		negate = true
+	} else {
+		return "", c19ccErr(m, "storing loop: test without continue")
+	}
+	mem := "(g_set_mem v_" + kv + " v_dps)"
+	sign := c19OkSign(t0.Cond, okv.Name) // +1: the arm is taken when the writer is a data predecessor
+	if sign == 0 {
+		return "", c19ccErr(m, "storing loop: test")
+	}
+	if negate {
+		sign = -sign
+	}
+	// sign > 0: the value is skipped (continue) when the writer IS a data predecessor
+	skipCond := mem
+	if sign < 0 {
+		skipCond = "(negb " + mem + ")"
+	}
+	if len(store) != 2 {
+		return "", c19ccErr(m, "storing loop: the value is not stored under its writer")
+	}
+	a1, ok1 := store[0].(*ast.AssignStmt)
+	a2, ok2 := store[1].(*ast.AssignStmt)
+	if ok1 && ok2 && len(a1.Lhs) == 1 && c19ccSq(a1.Lhs[0]) == recv+".Values["+kv+"]" {
+		a1, a2 = a2, a1 // the two independent map writes in the other order
+	}
 	if !ok1 || !ok2 || len(a1.Lhs) != 1 || len(a2.Lhs) != 1 || len(a1.Rhs) != 1 || len(a2.Rhs) != 1 ||
 		c19ccSq(a1.Lhs[0]) != recv+".DataPredecessors["+kv+"]" || c19ccSq(a1.Rhs[0]) != "true" ||
 		c19ccSq(a2.Lhs[0]) != recv+".Values["+kv+"]" || c19ccSq(a2.Rhs[0]) != vv2 {
@@ -350,6 +372,18 @@ func c19ccReportSkip(fn *ast.FuncDecl, recv string, f *ast.File) (string, error)
 		"   else []).\n", nil
 }
 
+// the block consists of one branch statement (continue / break) without label
+func c19ccOnlyBranch(b *ast.BlockStmt) (token.Token, bool) {
+	if b == nil || len(b.List) != 1 {
+		return 0, false
+	}
+	br, ok := b.List[0].(*ast.BranchStmt)
+	if !ok || br.Label != nil {
+		return 0, false
+	}
+	return br.Tok, true
+}
+
 func c19ccOr(a, b string) string {
 	if a != "" {
 		return a
@@ -392,6 +426,9 @@ func c19ExtractChanClose(repo string) (string, string, error) {
 	if rv == nil || rk == nil {
 		return "", "", fmt.Errorf("(*dagChannel).reportValues / reportSkip not found")
 	}
+	inl := c19NewInliner(fset, filepath.Join(repo, "compose"))
+	inl.expandFunc(rv)
+	inl.expandFunc(rk)
 	d1, err := c19ccReportValues(rv, r1)
 	if err != nil {
 		return "", "", err
